@@ -266,6 +266,23 @@ def gen_two_hap(rng, t, unprefixed=False, primary=None):
         pc["hap"] = hap
         pc["nametag"] = None
         design.append({"painted": False, "rows": [pc], "target": True, "nametag": None, "row_tags": {}})
+    if rng.random() < 0.2:
+        # one input scaffold cut in two unpainted pieces, both set aside with the same tag, one of them also
+        # re-assigned to the other haplotype: both pieces are expected in that tag's file (names stay unique)
+        un = [d for d in design if not d["painted"] and d["rows"][0]["s"] not in extra_names]
+        by_s = {}
+        for d in un:
+            by_s.setdefault(d["rows"][0]["s"], []).append(d)
+        cands = [v for v in by_s.values() if len(v) >= 2]
+        if cands:
+            a, b = rng.sample(rng.choice(cands), 2)
+            kind, exp = rng.choice([("cont", "Contaminant"), ("cont", "Contaminant"), ("fdup", "FalseDuplicate")])
+            for d in (a, b):
+                d["rows"][0]["kind"], d["rows"][0]["expect"] = kind, exp
+            other = 1 - b["rows"][0]["hap"]
+            b["row_tags"] = {0: [tagcase[other]]}
+            b["rows"][0]["hap"] = other
+            labels.add("tag:two-pieces-of-one-scaffold-set-aside-in-different-haplotypes")
     pt = _emit(rng, design, False)
     all_pieces = [pc for d in design for pc in d["rows"]]
     for pc in all_pieces:
@@ -287,6 +304,46 @@ def gen_two_hap(rng, t, unprefixed=False, primary=None):
         "pieces": all_pieces,
         "labels": sorted(labels),
     }
+
+
+def gen_multi_hap_primary(rng, t, nhap=3):
+    """A combined map of `nhap` haplotypes of which only the first is curated (its first chromosome carries
+    the Primary tag); the others may still have painted scaffolds.  Simple on purpose: the remap oracles that
+    do not depend on the naming design (conservation, gaps, ordering of written files) run on it."""
+    inp = []
+    haps = [f"HAP{k + 1}" for k in range(nhap)]
+    lean = rng.random() < 0.5  # un-curated haplotypes that consist of one painted chromosome each
+    for h in haps:
+        scs, _ = gasm.gen_input(rng, t, n_scaff=1 if (lean and h != haps[0]) else rng.randint(1, 3), mode="fasta", max_texels=40)
+        for k, s in enumerate(scs):
+            nm = f"{h}_SCAFFOLD_{k + 1}"
+            s[0] = nm
+            s[1] = [["F", nm, r[2], r[3], r[4], []] if r[0] == "F" else r for r in s[1]]
+        inp += scs
+    by_name = {s[0]: s for s in inp}
+    pieces, labels = gpv.gen_pieces(rng, inp, t, cut_prob=0.2)
+    design = []
+    for hi, h in enumerate(haps):
+        mine = [p for p in pieces if p["s"].startswith(h + "_")]
+        big = [p for p in mine if core_has_bases(by_name, p, t) and (p["end"] - p["start"] + 1) > 8 * (1 + int(t))]
+        npaint = (1 if lean else rng.choice([0, 1, 1, 2])) if hi else 1
+        painted = big[:npaint]
+        for j, pc in enumerate(painted):
+            pc.update(kind="main", expect=h, chrom=len(design), hap=hi, nametag=None, group=None)
+            tags = [h] + (["Primary"] if hi == 0 and j == 0 else [])
+            design.append({"painted": True, "rows": [pc], "target": True, "nametag": None, "row_tags": {0: tags}})
+        for pc in mine:
+            if any(pc is q for q in painted):
+                continue
+            pc.update(kind="unpainted", expect=h, chrom=None, hap=hi, nametag=None)
+            design.append({"painted": False, "rows": [pc], "target": True, "nametag": None, "row_tags": {}})
+    if not any(d["painted"] and "Primary" in d["row_tags"].get(0, []) for d in design):
+        return None
+    rng.shuffle(design)
+    pt = _emit(rng, design, False)
+    labels |= {"tag:primary", f"tag:{nhap}-haplotypes"}
+    return inp, pt, {"haps": haps, "hap_prefixes": haps, "primary": True, "prefix": "SUPER_", "target_mode": False, "first_target": None,
+                     "pieces": [pc for d in design for pc in d["rows"]], "labels": sorted(labels)}
 
 
 def add_haplotig_slivers(rng, inp, pt, t):
